@@ -235,6 +235,9 @@ def main():
         e_["zoff"] = zo
         if rng.random() < 0.5:
             e_["Zlim"] = [-0.7, float(rng.choice([0.9, 1.2]))]
+            # same vertical resolution as without the extra room (read_geqdsk refuses a table too
+            # coarse to reproduce psi at the X-point)
+            e_["nZ"] = int(np.ceil(e_["nZ"] * (e_["Zlim"][1] + 0.7) / 1.4))
         fam = families.GaussFamily(e_)
         R1D, Z1D, psi2D, psi1D, fpol1D, pres = fam.arrays()
         wall = families.make_wall({"kind": str(rng.choice(["box", "slant", "poly"])), "cw": bool(rng.random() < 0.5), "zoff": zo})
